@@ -169,7 +169,7 @@ class WorkBoundExceeded(BaseException):
 WORK_PER_BYTE, WORK_CONST = 300, 300000      # executed source lines allowed: 300 per input byte + 300 000 (undamaged seeds need about 18 per byte)
 
 
-def run_entry_points(data, which=(0, 1, 2)):
+def run_entry_points(data, which=(0, 1, 2), trace=True):
     """returns None when every entry point returned or raised inside the family within the work bound, else (entry point, exception text, where).
     Work is measured as executed Python source lines (sys.settrace 'line' events, library and interpreter code alike)."""
     import io, signal, sys
@@ -195,7 +195,8 @@ def run_entry_points(data, which=(0, 1, 2)):
                 return tracer
             try:
                 signal.alarm(10)
-                sys.settrace(tracer)
+                if trace:
+                    sys.settrace(tracer)
                 try:
                     fn()
                 finally:
@@ -222,7 +223,7 @@ def run_entry_points(data, which=(0, 1, 2)):
 @bounded("single-faults-and-truncation", props=["C13"],
          bound="three feature-covering seed documents (classic table + inherited attributes + simple font/Differences + outlines + labels + PNG-predictor image + form; "
                "xref stream + object streams + Type0/ToUnicode/W + inline image + ICC colour space; one image per filter LZW/RunLength/ASCIIHex/ASCII85/LZW+TIFF predictor + "
-               "filter chain with indirect Length). quick: every self-reference and chain-into-cycle fault plus 500 seeded single faults out of all (site x {15 replacement values, remove}) and stream-payload faults "
+               "filter chain with indirect Length). quick: every single fault once through extract_text (alarm only), and every self-reference and chain-into-cycle fault plus 500 seeded single faults through all three entry points with line counting, out of all (site x {15 replacement values, remove}) and stream-payload faults "
                "(truncate, corrupt, empty) + truncation at a stride of 1/60 of the file and at every byte around each trailer/xref/stream keyword; thorough: every fault and every truncation point. Entry points extract_text, extract_pages, "
                "extract_text_to_fp(xml); work is measured as executed source lines (settrace) against the bound 300 x bytes + 300 000 (undamaged seeds need about 18 per byte), with a 10 s alarm behind it")
 def _(tier, seed):
@@ -257,14 +258,23 @@ def _(tier, seed):
             for m_ in _re.finditer(rb"trailer|startxref|xref|endstream|stream|%%EOF", base):
                 cuts.update(range(max(0, m_.start() - 1), min(len(base), m_.end() + 3)))
         trunc.extend((nm, None, None, "truncate-file", cut, None) for cut in sorted(cuts))
+    allcases = list(cases)
     if tier == "quick":
         # every reference fault (self, cycle: the ones that can hang or exhaust the stack) plus a seeded sample of the others
         always = [c_ for c_ in cases if c_[4] in ("self-ref", "chain-into-cycle-ref")]
         rest = [c_ for c_ in cases if c_[4] not in ("self-ref", "chain-into-cycle-ref")]
         rng.shuffle(rest)
         cases = always + rest[:500]
+    light, lightset = [], set()
+    if tier == "quick":
+        # every single fault at least once: through extract_text only, with the alarm but without line counting (about 2 ms each)
+        chosen = set(map(id, cases))
+        light = [c_ for c_ in allcases if id(c_) not in chosen]
+        lightset = set(map(id, light))
     cases += trunc
-    for nm, num, path, kind, vn, v in cases:
+    for case in cases + light:
+        nm, num, path, kind, vn, v = case
+        is_light = id(case) in lightset
         m = models[nm]
         if kind == "truncate-file":
             data = write_model(m)[:vn]
@@ -277,7 +287,7 @@ def _(tier, seed):
             desc = "object %d %s: %s%s" % (num, "/".join(map(str, path)), kind, "" if vn is None else " by " + vn)
         evals += 1
         kinds.add((nm, kind, vn if kind == "replace" else None))
-        r = run_entry_points(data)
+        r = run_entry_points(data, which=(0,), trace=False) if is_light else run_entry_points(data)
         if r is not None:
             key = (r[1].split(":")[0], r[2])
             if r[1].startswith("TimeoutError") or r[1].startswith("WorkBoundExceeded"):
